@@ -166,6 +166,7 @@ def run_case(case, res):
                             bad.append(f"to_dot raised {lines!r}")
                         else:
                             gn, ge = parse_dot(lines)
+                            res.observe("dot_graphs", [sorted(gn), sorted(map(str, ge.items()))])
                             if set(gn) != exp_nodes:
                                 bad.append(f"DOT nodes (start={'root' if isroot else nodes.index(start) if False else '#'}, unique={unique}, add_self={add_self}): got {sorted(gn)}, expected {sorted(exp_nodes)}")
                             if ge != exp_edges:
